@@ -843,6 +843,8 @@ func init() {
 	})
 }
 
+var names2 = [2]string{"ToSMF0", "ToSMF1"}
+
 func runC20(c Case, m *Model) (v Verdict) {
 	toks := strings.Fields(c.Op)
 	if len(toks) == 0 {
@@ -950,6 +952,58 @@ func runC20(c Case, m *Model) (v Verdict) {
 			}
 		}
 		v.Tags = append(v.Tags, "song-exported-repeatedly")
+		// ... and after a bar's signature was edited through Bars() between two exports, the export is that of a song
+		// built with the edited signature from the start
+		if len(s.bars) > 0 && len(v.Oracle) == 0 {
+			s2 := &seqSong{q: s.q, title: s.title, composer: s.composer, names: s.names}
+			cur := [2]uint8{4, 4}
+			for _, b := range s.bars {
+				if !(b.num == 0 && b.den == 0) {
+					cur = [2]uint8{b.num, b.den}
+				}
+				s2.bars = append(s2.bars, seqBar{num: cur[0], den: cur[1], evs: b.evs})
+			}
+			k := (len(c.Op) * 7) % len(s2.bars)
+			oldLen := int(s2.bars[k].num) * 32 / int(s2.bars[k].den)
+			var repl [2]uint8
+			for _, cand := range [][2]uint8{{15, 2}, {7, 1}, {24, 4}, {5, 1}, {4, 1}, {12, 8}, {7, 8}, {4, 4}, {3, 4}} {
+				if l := int(cand[0]) * 32 / int(cand[1]); l >= oldLen && cand != [2]uint8{s2.bars[k].num, s2.bars[k].den} {
+					repl = cand
+				}
+			}
+			if repl != [2]uint8{} {
+				s2.bars[k].num, s2.bars[k].den = repl[0], repl[1]
+				if x2 := expectSeq(s2); x2.inDomain {
+					var edited, fresh [2]string
+					if p := try(func() {
+						so := s.build()
+						a := so.ToSMF0()
+						_ = a
+						so.Bars()[k].TimeSig = repl
+						a2 := so.ToSMF0()
+						b2 := so.ToSMF1()
+						edited = [2]string{showSMF(&a2), showSMF(&b2)}
+						f := s2.build()
+						fa := f.ToSMF0()
+						fb := s2.build().ToSMF1()
+						fresh = [2]string{showSMF(&fa), showSMF(&fb)}
+					}); p != "" {
+						v.Oracle = append(v.Oracle, "exporting after an edit through Bars() panicked: "+p)
+					} else {
+						for i := 0; i < 2; i++ {
+							fe, ok1 := parseShown(edited[i])
+							ff, ok2 := parseShown(fresh[i])
+							if !ok1 || !ok2 || fe.canon() != ff.canon() {
+								v.Oracle = append(v.Oracle, fmt.Sprintf("%s after bar %d was changed to %d/%d through Bars() (one export before the edit) differs from the export of a song built that way: %s vs %s",
+									names2[i], k, repl[0], repl[1], short(edited[i]), short(fresh[i])))
+								break
+							}
+						}
+					}
+					v.Tags = append(v.Tags, "bar-edited-between-exports")
+				}
+			}
+		}
 	}
 	// bar starts (Bar.AbsTicks after an export): every bar starts where the previous one ends
 	for i := 0; i < 2; i++ {
